@@ -31,59 +31,48 @@ Ltac model_unfold :=
 Lemma tie_static_inverse_of_whole_matrix : g_st_inverse_of = "whole 6x6 cij"%string.
 Proof. reflexivity. Qed.
 
-Section Row.
-  Variables (cl sl : list (list R)) (rho0 : R).
-  Let C := matof cl.
-  Let S := matof sl.
-  Let G {A} (f : (R -> R) -> (R -> R) -> R -> (Z -> Z -> R) -> (Z -> Z -> R) -> A) : A :=
-    f s_to_gcm3 s_to_kms rho0 C S.
+Notation GEN f cl sl rho0 := (f s_to_gcm3 s_to_kms rho0 (matof cl) (matof sl)) (only parsing).
+Ltac start := g_st_unfold; model_unfold; norm_idx.
 
-  Lemma tie_st_bm_V : G g_st_bm_V = s_bmV cl.
-  Proof. subst G C S. g_st_unfold. model_unfold. norm_idx. tie_field. Qed.
+Lemma tie_st_bm_V cl sl rho0 : GEN g_st_bm_V cl sl rho0 = s_bmV cl.
+Proof. start. tie_field. Qed.
 
-  Lemma tie_st_G_V : G g_st_G_V = s_GV cl.
-  Proof. subst G C S. g_st_unfold. model_unfold. norm_idx. tie_field. Qed.
+Lemma tie_st_G_V cl sl rho0 : GEN g_st_G_V cl sl rho0 = s_GV cl.
+Proof. start. tie_field. Qed.
 
-  Lemma tie_st_bm_R : st_den_K sl <> 0 -> G g_st_bm_R = s_bmR sl.
-  Proof. unfold st_den_K. intros HK. subst G C S. g_st_unfold. model_unfold. norm_idx. tie_field. Qed.
+Lemma tie_st_bm_R cl sl rho0 : st_den_K sl <> 0 -> GEN g_st_bm_R cl sl rho0 = s_bmR sl.
+Proof. unfold st_den_K. intros HK. start. tie_field. Qed.
 
-  Lemma tie_st_G_R : st_den_G sl <> 0 -> G g_st_G_R = s_GR sl.
-  Proof. unfold st_den_G. intros HG. subst G C S. g_st_unfold. model_unfold. norm_idx. tie_field. Qed.
+Lemma tie_st_G_R cl sl rho0 : st_den_G sl <> 0 -> GEN g_st_G_R cl sl rho0 = s_GR sl.
+Proof. unfold st_den_G. intros HG. start. tie_field. Qed.
 
-  Lemma tie_st_bm_VRH : st_den_K sl <> 0 -> G g_st_bm_VRH = s_avg (s_bmV cl) (s_bmR sl).
-  Proof. unfold st_den_K. intros HK. subst G C S. g_st_unfold. model_unfold. norm_idx. tie_field. Qed.
+Lemma tie_st_bm_VRH cl sl rho0 : st_den_K sl <> 0 -> GEN g_st_bm_VRH cl sl rho0 = s_avg (s_bmV cl) (s_bmR sl).
+Proof. unfold st_den_K. intros HK. start. tie_field. Qed.
 
-  Lemma tie_st_G_VRH : st_den_G sl <> 0 -> G g_st_G_VRH = s_avg (s_GV cl) (s_GR sl).
-  Proof. unfold st_den_G. intros HG. subst G C S. g_st_unfold. model_unfold. norm_idx. tie_field. Qed.
+Lemma tie_st_G_VRH cl sl rho0 : st_den_G sl <> 0 -> GEN g_st_G_VRH cl sl rho0 = s_avg (s_GV cl) (s_GR sl).
+Proof. unfold st_den_G. intros HG. start. tie_field. Qed.
 
-  (** the density column the velocity block divides by is the entry density converted by _to_gcm3 *)
-  Lemma tie_st_density : G g_st_density = s_to_gcm3 rho0.
-  Proof. subst G C S. g_st_unfold. reflexivity. Qed.
+(** the density column the velocity block divides by is the entry density converted by _to_gcm3 *)
+Lemma tie_st_density cl sl rho0 : GEN g_st_density cl sl rho0 = s_to_gcm3 rho0.
+Proof. g_st_unfold. reflexivity. Qed.
 
-  Let K := s_avg (s_bmV cl) (s_bmR sl).
-  Let Gm := s_avg (s_GV cl) (s_GR sl).
+Lemma tie_st_v_p cl sl rho0 : st_den_K sl <> 0 -> st_den_G sl <> 0 -> s_to_gcm3 rho0 <> 0 ->
+  GEN g_st_v_p cl sl rho0 = s_vp (s_avg (s_bmV cl) (s_bmR sl)) (s_avg (s_GV cl) (s_GR sl)) (s_to_gcm3 rho0).
+Proof.
+  unfold st_den_K, st_den_G. intros HK HG Hrho. start. set (rho := s_to_gcm3 rho0) in *. clearbody rho. tie_sqrt.
+Qed.
 
-  Lemma tie_st_v_p : st_den_K sl <> 0 -> st_den_G sl <> 0 -> s_to_gcm3 rho0 <> 0 ->
-    G g_st_v_p = s_vp K Gm (s_to_gcm3 rho0).
-  Proof.
-    unfold st_den_K, st_den_G. intros HK HG. generalize (s_to_gcm3 rho0) as rho. intros rho Hrho.
-    subst G C S K Gm. g_st_unfold. model_unfold. norm_idx. tie_sqrt.
-  Qed.
+Lemma tie_st_v_s cl sl rho0 : st_den_G sl <> 0 -> s_to_gcm3 rho0 <> 0 ->
+  GEN g_st_v_s cl sl rho0 = s_vs (s_avg (s_GV cl) (s_GR sl)) (s_to_gcm3 rho0).
+Proof.
+  unfold st_den_G. intros HG Hrho. start. set (rho := s_to_gcm3 rho0) in *. clearbody rho. tie_sqrt.
+Qed.
 
-  Lemma tie_st_v_s : st_den_G sl <> 0 -> s_to_gcm3 rho0 <> 0 ->
-    G g_st_v_s = s_vs Gm (s_to_gcm3 rho0).
-  Proof.
-    unfold st_den_G. intros HG. generalize (s_to_gcm3 rho0) as rho. intros rho Hrho.
-    subst G C S K Gm. g_st_unfold. model_unfold. norm_idx. tie_sqrt.
-  Qed.
-
-  Lemma tie_st_v_phi : st_den_K sl <> 0 -> s_to_gcm3 rho0 <> 0 ->
-    G g_st_v_phi = s_vphi K (s_to_gcm3 rho0).
-  Proof.
-    unfold st_den_K. intros HK. generalize (s_to_gcm3 rho0) as rho. intros rho Hrho.
-    subst G C S K Gm. g_st_unfold. model_unfold. norm_idx. tie_sqrt.
-  Qed.
-End Row.
+Lemma tie_st_v_phi cl sl rho0 : st_den_K sl <> 0 -> s_to_gcm3 rho0 <> 0 ->
+  GEN g_st_v_phi cl sl rho0 = s_vphi (s_avg (s_bmV cl) (s_bmR sl)) (s_to_gcm3 rho0).
+Proof.
+  unfold st_den_K. intros HK Hrho. start. set (rho := s_to_gcm3 rho0) in *. clearbody rho. tie_sqrt.
+Qed.
 
 (** the nine columns, in the order of [s_vrh_row] *)
 Theorem tie_group_static_vrh (cl sl : list (list R)) (rho0 : R) :
@@ -93,7 +82,7 @@ Theorem tie_group_static_vrh (cl sl : list (list R)) (rho0 : R) :
       [g_st_bm_V; g_st_bm_R; g_st_bm_VRH; g_st_G_V; g_st_G_R; g_st_G_VRH; g_st_v_p; g_st_v_s; g_st_v_phi]
   = s_vrh_row cl sl (s_to_gcm3 rho0).
 Proof.
-  intros HK HG Hrho C S. cbn [map]. unfold s_vrh_row.
+  intros HK HG Hrho C S. subst C S. cbn [map]. unfold s_vrh_row.
   rewrite (tie_st_bm_V cl sl rho0), (tie_st_bm_R cl sl rho0 HK), (tie_st_bm_VRH cl sl rho0 HK),
           (tie_st_G_V cl sl rho0), (tie_st_G_R cl sl rho0 HG), (tie_st_G_VRH cl sl rho0 HG),
           (tie_st_v_p cl sl rho0 HK HG Hrho), (tie_st_v_s cl sl rho0 HG Hrho), (tie_st_v_phi cl sl rho0 HK Hrho).
@@ -106,11 +95,7 @@ Example tie_static_side_conditions_satisfiable :
 Proof.
   exists [[1;0;0;0;0;0];[0;1;0;0;0;0];[0;0;1;0;0;0];[0;0;0;1;0;0];[0;0;0;0;1;0];[0;0;0;0;0;1]], 1.
   unfold st_den_K, st_den_G, s_el, s_nth, s_to_gcm3, s_gcm3_factor, s_NA_1e23, s_bohr3, s_bohr_A, ofQ'. cbn. rops.
-  repeat split; try lra.
-  apply Rmult_integral_contrapositive_currified; [lra|].
-  unfold Rdiv. apply Rmult_integral_contrapositive_currified; [lra|]. apply Rinv_neq_0_compat.
-  repeat (apply Rmult_integral_contrapositive_currified; try lra).
-  all: unfold Rdiv; apply Rmult_integral_contrapositive_currified; [lra | apply Rinv_neq_0_compat; lra].
+  repeat split; lra.
 Qed.
 
 Print Assumptions tie_group_static_vrh.
